@@ -370,6 +370,12 @@ class Model:
                 if st[1] in self.failflags:
                     rc = st[2]
                     break
+            elif k == "failflag_direct":
+                if st[1] in self.failflags:
+                    # the failing script has written its target itself: whatever is there now is the script's junk
+                    self.fs[p] = FileRec(("scribble %s\n" % p).encode(), self._next(), "redo")
+                    rc = st[2]
+                    break
             elif k == "fail":
                 rc = st[1]
                 break
@@ -412,6 +418,8 @@ class Model:
             r.failed = True
             r.failed_run = self.run
             r.gen = p in self.fs and self.fs[p].owner != "user"
+            if r.gen:
+                r.out_ver = self.fs[p].ver     # redo records the stamp of whatever the failed build left behind
             r.deps = seen
             return rc
         data = acc.encode()
@@ -492,7 +500,7 @@ class Model:
                     ok = False
             elif k == "ext":
                 acc += "X %s %s\n" % (st[1], self.ext.get(st[1], "none"))
-            elif k == "failflag":
+            elif k in ("failflag", "failflag_direct"):
                 if st[1] in self.failflags:
                     ok = False
             elif k == "fail":
